@@ -351,3 +351,34 @@ package circuitbreaker
 //@   panics never
 //@   witness n = len(rules)
 //@   replay loadrules_nil
+
+// ---- C13: per-resource load
+//@ spec func validRule(r) = r != nil && len(r.Resource) > 0 && r.StatIntervalMs > 0 && r.RetryTimeoutMs > 0 && r.Threshold >= 0.0 && !(r.Strategy == SlowRequestRatio && r.Threshold > 1.0) && !(r.Strategy == ErrorRatio && r.Threshold > 1.0)
+
+//@ func IsValidRule(r) err
+//@   props C13
+//@   ensures[iff] err == nil <==> validRule(r)
+//@   modifies nothing
+
+// only rules that passed the validity check may reach the breaker builder
+//@ func BuildResourceCircuitBreaker(res, rulesOfRes, oldResCbs) r
+//@   assumed
+//@   requires[all-valid] forall k Int :: 0 <= k && k < len(rulesOfRes) ==> validRule(rulesOfRes[k])
+//@   ensures len(r) == 0 || fresh(base(r))
+//@   modifies elems(oldResCbs)
+
+//@ func onResourceRuleUpdate(res, rawResRules) err
+//@   props C13
+//@   requires breakers != nil && breakerRules != nil && currentRules != nil && breakerRules != currentRules && ref(breakers) != ref(breakerRules) && ref(breakers) != ref(currentRules)
+//@   let n = len(rawResRules)
+//@   let pick = seqof(k, 0 <= k && k < len(rawResRules) && validRule(rawResRules[k]))
+//@   ensures[reported-are-the-valid-ones] err == nil && has(breakers, res) ==> len(breakerRules[res]) == countTrue(pick, n) && (forall k Int :: 0 <= k && k < n && sel(pick, k) ==> breakerRules[res][countTrue(pick, k)] == rawResRules[k])
+//@   ensures[other-resources-untouched] forall s Str :: s != res ==> has(breakers, s) == old(has(breakers, s)) && breakers[s] == old(breakers[s]) && breakerRules[s] == old(breakerRules[s])
+//@   witness n = len(rawResRules)
+//@   replay cb_invalid_rule_enforced
+//@   loop 1:
+//@     invariant[length] len(validResRules) == countTrue(pick, #i) && fresh(base(validResRules)) && 0 <= countTrue(pick, #i)
+//@     invariant[positions] forall k Int :: 0 <= k && k < #i && sel(pick, k) ==> 0 <= countTrue(pick, k) && countTrue(pick, k) < len(validResRules)
+//@     invariant[placed] forall k Int :: 0 <= k && k < #i && sel(pick, k) ==> validResRules[countTrue(pick, k)] == rawResRules[k]
+//@     invariant[all-valid] forall j Int :: 0 <= j && j < len(validResRules) ==> validRule(validResRules[j])
+//@     invariant[frame] frame()
